@@ -477,22 +477,28 @@ theorem from_value_table (e : Env) :
 theorem format_names :
     Tables.fmtBase16 = ['b','a','s','e','1','6'] ∧ Tables.fmtBase64 = ['b','a','s','e','6','4'] := by decide
 
-/-- every namespace of the `Namespace` enum without a hyphen passes `is_uri`
-(the others are finding C05-uri-hyphen) -/
+/-- every namespace of the `Namespace` enum (XSI, with its hyphen, included) passes `is_uri` -/
 theorem standard_namespaces_are_uris :
-    Tables.standardNamespaces.all (fun x => isUri (some x.1) || x.1.contains '-') = true := by
+    Tables.standardNamespaces.all (fun x => isUri (some x.1)) = true := by
   decide +kernel
 
-/-- the characters `is_uri` lets through include the letters, digits and the
-RFC 2396 marks/reserved characters `; / ? : @ & = + $ . _ ! ~ * ' ( ) %`
-(`-` and `,` are missing: finding C05-uri-hyphen) -/
+/-- the characters `is_uri` lets through, before and after `#`, include every RFC 2396
+URI character: letters, digits, `; / ? : @ & = + $ ,` and `- _ . ! ~ * ' ( ) %`
+(character sets regenerated from the compiled `URI_REGEX`) -/
 theorem uri_chars_cover :
-    (['a','b','c','d','e','f','g','h','i','j','k','l','m','n','o','p','q','r','s','t','u','v','w','x','y','z',
-      'A','B','C','D','E','F','G','H','I','J','K','L','M','N','O','P','Q','R','S','T','U','V','W','X','Y','Z',
-      '0','1','2','3','4','5','6','7','8','9',
-      ';','/','?',':','@','&','=','+','$','.','_','!','~','*',Char.ofNat 39,'(',')','%'] : List Char).all
+    rfcUriChars.all
       (fun c => Tables.uriBodyChars.contains c.toNat && Tables.uriFragmentChars.contains c.toNat) = true := by
   decide +kernel
+
+/-- **`is_uri` on URI references**: every non-empty string of RFC 2396 URI characters
+with at most one `#` that does not *end* in `#` is accepted (`urn:a-b`, `a,b`,
+`http://www.w3.org/2001/XMLSchema-instance`, `x#frag`, …) -/
+theorem is_uri_accepts (u : Str) (h : isRfcUriRef u = true) (hl : u.getLast? ≠ some '#') :
+    isUri (some u) = true :=
+  isUri_of_rfc u h hl
+
+example : isRfcUriRef ['u','r','n',':','a','-','b',',','c','#','f'] = true ∧
+    (['u','r','n',':','a','-','b',',','c','#','f'] : Str).getLast? ≠ some '#' := by decide
 
 example : floatDatatype (.fin false 15 (-1)) = ['f', 'l', 'o', 'a', 't'] := by decide
 
@@ -735,25 +741,32 @@ theorem ncname_combining_mark_witness :
 
 /-! ### QName without prefix map (`{uri}local` notation) -/
 
-/-- **Full strength**: without `ns_map` a QName is written as its `.text` and that text is read back. -/
+/-- **Full strength**: without `ns_map` a QName whose namespace is a URI reference is
+written as its `.text` and that text is read back. -/
 def QNameNoMapRoundTrip : Prop :=
   ∀ (e : CEnv) (ns : Option Str) (l : Str), EnvOk e → QNameOk e ns l →
+    (∀ u, ns = some u → isRfcUriRef u = true) →
     qnameSerialize (qtext ns l) none = some (qtext ns l, none) ∧
     qnameDeserialize e (qtext ns l) none = some (qtext ns l)
 
-/-- **The code violates it**: `is_uri` knows no `-`, so `{urn:a-b}c` is rejected
-(as is `{http://www.w3.org/2001/XMLSchema-instance}type`). -/
-theorem qname_uri_hyphen_counterexample : ¬ QNameNoMapRoundTrip := by
+/-- **The code still violates it**: the regex wants at least one character after `#`,
+so a namespace that ends in `#` (XML Signature, RDF, …) is not a URI for `is_uri`
+and `{http://www.w3.org/2000/09/xmldsig#}Signature` is rejected. (The missing `-`
+and `,` of the earlier regex were repaired in c07c299.) -/
+theorem qname_uri_empty_fragment_counterexample : ¬ QNameNoMapRoundTrip := by
   intro h
-  have := (h asciiCEnv (some ['u','r','n',':','a','-','b']) ['c'] asciiCEnv_ok
-    ⟨by decide, by intro u hu; injection hu with hu; subst hu; decide⟩).2
+  have := (h asciiCEnv (some ['u','r','n',':','x','#']) ['c'] asciiCEnv_ok
+    ⟨by decide, by intro u hu; injection hu with hu; subst hu; decide⟩
+    (by intro u hu; injection hu with hu; subst hu; decide)).2
   revert this
   decide
 
-/-- the XSI namespace itself is not a URI for `is_uri` -/
-theorem xsi_namespace_not_uri :
-    isUri (some ['h','t','t','p',':','/','/','w','w','w','.','w','3','.','o','r','g','/','2','0','0','1','/',
-      'X','M','L','S','c','h','e','m','a','-','i','n','s','t','a','n','c','e']) = false := by decide
+/-- the XML Signature namespace is not a URI for `is_uri` -/
+theorem xmldsig_namespace_not_uri :
+    isRfcUriRef ['h','t','t','p',':','/','/','w','w','w','.','w','3','.','o','r','g','/','2','0','0','0','/',
+      '0','9','/','x','m','l','d','s','i','g','#'] = true ∧
+    isUri (some ['h','t','t','p',':','/','/','w','w','w','.','w','3','.','o','r','g','/','2','0','0','0','/',
+      '0','9','/','x','m','l','d','s','i','g','#']) = false := by decide +kernel
 
 /-- **Provable part**: round trip for every QName whose namespace `is_uri` accepts -/
 theorem qname_nomap_rt_partial (e : CEnv) (ns : Option Str) (l : Str) (hok : EnvOk e)
@@ -791,6 +804,19 @@ theorem qname_nomap_rt_partial (e : CEnv) (ns : Option Str) (l : Str) (hok : Env
     have hstrip' : e.strip ('{' :: (u ++ '}' :: l)) = '{' :: (u ++ '}' :: l) := by simpa using hstrip
     simp only [qtext, qnameDeserialize, qnameResolve, List.cons_append, hstrip', if_true, hsplit, hu]
     simp [hsp', hl, hune]
+
+/-- **Provable part, in terms of the value alone**: round trip for every QName whose
+namespace is an RFC 2396 URI reference that does not end in `#` -/
+theorem qname_nomap_rt_uriref (e : CEnv) (ns : Option Str) (l : Str) (hok : EnvOk e)
+    (hq : QNameOk e ns l) (huri : ∀ u, ns = some u → isRfcUriRef u = true ∧ u.getLast? ≠ some '#') :
+    qnameSerialize (qtext ns l) none = some (qtext ns l, none) ∧
+    qnameDeserialize e (qtext ns l) none = some (qtext ns l) :=
+  qname_nomap_rt_partial e ns l hok hq (fun u hu => is_uri_accepts u (huri u hu).1 (huri u hu).2)
+
+example : QNameOk asciiCEnv (some ['u','r','n',':','a','-','b']) ['c'] ∧
+    isRfcUriRef ['u','r','n',':','a','-','b'] = true ∧ (['u','r','n',':','a','-','b'] : Str).getLast? ≠ some '#' := by
+  refine ⟨⟨by decide, ?_⟩, by decide, by decide⟩
+  intro u hu; injection hu with hu; subst hu; decide
 
 /-! ## enumerations -/
 
